@@ -155,3 +155,30 @@ prop("C10", level="exploration", bounded=True,
      note="Exploration level. pickle/copy, PIL rendering and YAML are outside pyvc; their effect is observed at run time only.",
      also=["Fiber.getPayload", "Fiber.getPosition", "iterRange", "_iterator.__iter__", "Payload.__add__", "Payload.__mul__"],
      trusted_base=["pickle/copy (observed at run time only)"])
+
+prop("C08", level="exploration", bounded=True,
+     technique="bounded: partitions recomputed from the element list by the statement's interval rule vs the real splitters over an exhaustive small scope",
+     text="Bounded (not proved): every fiber over 5 (quick) / 6 (thorough) coordinates with payloads {absent,0,1} x 4 active ranges x relativeCoords x 5 halo "
+          "settings x every step (uniform), every step (equal), 6 size lists (unequal), 6 boundary lists (non-uniform); the division shorthands; nested "
+          "re-splits (partitions of partitions tile the original); tensor-level splits at every depth of depth-2/3 tensors with empty sub-fibers. Checked: "
+          "upper coordinates = starting boundaries of the non-empty partitions, lower coordinates = exactly the elements of the halo-extended interval in "
+          "order (as offsets when relative), payloads unchanged, partition active range = interval clipped to the parent's, lossless without halos, "
+          "operand unchanged. Proved core: build_elem of both splitters (relative coordinates are offsets from the partition start; the partition's "
+          "active range is its interval clipped to the parent's; payload list passed through) and the halo arithmetic helpers. The partition loops "
+          "themselves build lists of lists with list.index / slice membership tests, outside pyvc's subset.",
+     note="Exploration level. Boundary lists start at or below the active start (the statement's 'every active element' presupposes it). "
+          "Fiber.getActive is abstracted by ghost fields in the proved core (tier T).",
+     also=["Splitter"],
+     trusted_base=["Fiber.getActive ghost abstraction (tier T)"])
+
+prop("C09", level="exploration", bounded=True,
+     technique="bounded: content maps of transform results vs the image of the original's content under the stated coordinate map, inverses applied",
+     text="Bounded (not proved): every depth-2 tree over 2 coordinates (explicit defaults, empty sub-fibers, empty tensor) x {all permutations, swap, the 5 "
+          "flatten styles with unflatten, absolute/relative merge with a summing merge function, split + flatten(absolute), coordinate and payload "
+          "updates at every depth}; seeded random depth 3-4 tensors with random permutations and (depth, levels, style) choices; all two-point 3-rank "
+          "tensors under all 6 permutations. Each result's content map is compared with the image of the original's, results are checked for WF and "
+          "rank bookkeeping, inverses (inverse permutation, unflatten) are applied and compared. No deductive part: swizzleRanks is a dictionary- and "
+          "frontier-driven DFS rebuild, merge/unflatten go through sorted()/zip(*...)/recursive n-ary union, outside pyvc's subset; the per-element "
+          "building blocks they share with other properties (union iterator, updatePayloads' callers) are covered under C04/C08.",
+     note="Exploration level. Known finding: swapRanks rejects an empty fiber by assertion (pinned test).",
+     trusted_base=[])
